@@ -1,8 +1,374 @@
 package main
 
-// mustCompileSymbolic: placeholder until the fixed-width class model for
-// gts.Match is built (C18 b).
+// Fixed-width class model for the patterns gts.Match builds (DESIGN §2.5 (b)):
+// a concatenation of single-byte matchers — a bracket class of literal bytes,
+// `.`, a literal byte, or an escaped literal byte — compiled from a pattern
+// whose structure is concrete on the path while some literal bytes may be
+// symbolic.  FindAllIndex is the leftmost, non-overlapping scan.  Also the
+// index/suffixarray contract used by gts.Search.
+
+import (
+	"regexp"
+)
+
+type reElem struct {
+	any   bool
+	class []byte // concrete set
+	lit   *Term  // literal byte (possibly symbolic)
+}
+
+type reFixed struct {
+	elems []reElem
+}
+
+const reSpecial = `\.+*?()|[]{}^$`
+
+func isSpecialByte(b byte) bool {
+	for i := 0; i < len(reSpecial); i++ {
+		if reSpecial[i] == b {
+			return true
+		}
+	}
+	return false
+}
+
+// parseFixed parses a pattern made of [class] . literal \literal elements.
+func parseFixed(pat StrV) ([]reElem, []int, bool) {
+	bs := pat.bytes()
+	var elems []reElem
+	var unescapedSym []int // element indexes whose literal is a symbolic, unescaped byte
+	i := 0
+	for i < len(bs) {
+		c := bs[i]
+		if !c.isConst() {
+			unescapedSym = append(unescapedSym, len(elems))
+			elems = append(elems, reElem{lit: c})
+			i++
+			continue
+		}
+		switch byte(c.k) {
+		case '[':
+			j := i + 1
+			var set []byte
+			for j < len(bs) && !(bs[j].isConst() && bs[j].k == ']') {
+				if !bs[j].isConst() || isSpecialByte(byte(bs[j].k)) {
+					return nil, nil, false
+				}
+				set = append(set, byte(bs[j].k))
+				j++
+			}
+			if j >= len(bs) {
+				return nil, nil, false
+			}
+			elems = append(elems, reElem{class: set})
+			i = j + 1
+		case '.':
+			elems = append(elems, reElem{any: true})
+			i++
+		case '\\':
+			if i+1 >= len(bs) {
+				return nil, nil, false
+			}
+			elems = append(elems, reElem{lit: bs[i+1]})
+			i += 2
+		default:
+			if isSpecialByte(byte(c.k)) {
+				return nil, nil, false
+			}
+			elems = append(elems, reElem{lit: c})
+			i++
+		}
+	}
+	return elems, unescapedSym, true
+}
+
 func (w *Worker) mustCompileSymbolic(st *State, pat StrV, depth int) []Outcome {
-	unsupported("regexp.MustCompile of a symbolic pattern (Match model not built yet)")
-	return nil
+	elems, unesc, ok := parseFixed(pat)
+	if !ok {
+		unsupported("regexp.MustCompile of a symbolic pattern outside the fixed-width class fragment")
+	}
+	var outs []Outcome
+	cur := st
+	// an unescaped symbolic byte may be regexp syntax: `(` makes MustCompile panic (decided
+	// exactly); the other metacharacters change the meaning of the pattern and are cut
+	for _, ei := range unesc {
+		c := elems[ei].lit
+		paren := mkEq(c, mkInt('('))
+		if ft, mt, ff, mf := w.feasible(cur, paren); ft {
+			ps := cur
+			if ff {
+				ps = cur.fork()
+				w.states++
+			}
+			ps.assume(paren)
+			ps.model = mt
+			outs = append(outs, Outcome{st: ps, pan: &PanicV{val: IfaceV{}, site: "regexp.MustCompile: error parsing regexp: missing closing ): `(`"}})
+			if !ff {
+				return outs
+			}
+			cur.assume(mkNot(paren))
+			cur.model = mf
+		}
+		var sp []*Term
+		for i := 0; i < len(reSpecial); i++ {
+			sp = append(sp, mkEq(c, mkInt(int64(reSpecial[i]))))
+		}
+		special := mkOr(sp...)
+		ft, mt, ff, mf := w.feasible(cur, special)
+		if ft {
+			cs := cur
+			if ff {
+				cs = cur.fork()
+				w.states++
+			}
+			cs.assume(special)
+			cs.model = mt
+			outs = append(outs, Outcome{st: cs, pan: &PanicV{runtime: "CUT: a symbolic query byte reaches the pattern unescaped and is a regexp metacharacter other than `(`", site: "regexp.MustCompile"}})
+			if !ff {
+				return outs
+			}
+			cur.assume(mkNot(special))
+			cur.model = mf
+		}
+	}
+	p := w.newRegexp(cur, &reObj{pattern: pat, fixed: &reFixed{elems: elems}})
+	return append(outs, Outcome{st: cur, ret: p})
+}
+
+func elemMatches(e reElem, b *Term) *Term {
+	switch {
+	case e.any:
+		return mkNot(mkEq(b, mkInt('\n')))
+	case e.class != nil:
+		var alts []*Term
+		for _, c := range e.class {
+			alts = append(alts, mkEq(b, mkInt(int64(c))))
+		}
+		return mkOr(alts...)
+	default:
+		return mkEq(b, e.lit)
+	}
+}
+
+// findAllFixed: leftmost non-overlapping scan, forking on every match decision.
+func (w *Worker) findAllFixed(st *State, fx *reFixed, subj []*Term, pos int, acc [][2]int) []struct {
+	st  *State
+	res [][2]int
+} {
+	type outT = struct {
+		st  *State
+		res [][2]int
+	}
+	m := len(fx.elems)
+	if m == 0 || pos+m > len(subj) {
+		return []outT{{st, acc}}
+	}
+	cs := make([]*Term, m)
+	for j := 0; j < m; j++ {
+		cs[j] = elemMatches(fx.elems[j], subj[pos+j])
+	}
+	c := mkAnd(cs...)
+	if c.isTrue() {
+		return w.findAllFixed(st, fx, subj, pos+m, append(acc[:len(acc):len(acc)], [2]int{pos, pos + m}))
+	}
+	if c.isFalse() {
+		return w.findAllFixed(st, fx, subj, pos+1, acc)
+	}
+	ft, mt, ff, mf := w.feasible(st, c)
+	var outs []outT
+	if ft {
+		s := st
+		if ff {
+			s = st.fork()
+			w.states++
+		}
+		s.assume(c)
+		s.model = mt
+		outs = append(outs, w.findAllFixed(s, fx, subj, pos+m, append(acc[:len(acc):len(acc)], [2]int{pos, pos + m}))...)
+	}
+	if ff {
+		st.assume(mkNot(c))
+		st.model = mf
+		outs = append(outs, w.findAllFixed(st, fx, subj, pos+1, acc)...)
+	}
+	return outs
+}
+
+func init() {
+	natives["regexp.QuoteMeta"] = func(w *Worker, st *State, args []Value, fv *FuncV, depth int) []Outcome {
+		s := args[0].(StrV)
+		if s.isConcrete() {
+			return ret1(st, StrV{s: regexp.QuoteMeta(s.s)})
+		}
+		// fork per symbolic byte on "is a metacharacter"
+		type part struct {
+			st *State
+			bs []*Term
+		}
+		parts := []part{{st, nil}}
+		for _, b := range s.bytes() {
+			var next []part
+			for _, p := range parts {
+				if b.isConst() {
+					if isSpecialByte(byte(b.k)) {
+						p.bs = append(p.bs[:len(p.bs):len(p.bs)], mkInt('\\'), b)
+					} else {
+						p.bs = append(p.bs[:len(p.bs):len(p.bs)], b)
+					}
+					next = append(next, p)
+					continue
+				}
+				var sp []*Term
+				for i := 0; i < len(reSpecial); i++ {
+					sp = append(sp, mkEq(b, mkInt(int64(reSpecial[i]))))
+				}
+				special := mkOr(sp...)
+				ft, mt, ff, mf := w.feasible(p.st, special)
+				if ft {
+					s2 := p.st
+					if ff {
+						s2 = p.st.fork()
+						w.states++
+					}
+					s2.assume(special)
+					s2.model = mt
+					next = append(next, part{s2, append(p.bs[:len(p.bs):len(p.bs)], mkInt('\\'), b)})
+				}
+				if ff {
+					p.st.assume(mkNot(special))
+					p.st.model = mf
+					next = append(next, part{p.st, append(p.bs[:len(p.bs):len(p.bs)], b)})
+				}
+			}
+			parts = next
+		}
+		var outs []Outcome
+		for _, p := range parts {
+			outs = append(outs, Outcome{st: p.st, ret: strFromTerms(p.bs)})
+		}
+		return outs
+	}
+	natives["(*regexp.Regexp).FindAllIndex"] = func(w *Worker, st *State, args []Value, fv *FuncV, depth int) []Outcome {
+		r := reOf(st, args[0])
+		var subj []*Term
+		for _, e := range w.sliceElems(st, args[1].(SliceV)) {
+			subj = append(subj, e.(*Term))
+		}
+		fx := r.fixed
+		if fx == nil {
+			if r.re == nil {
+				unsupported("FindAllIndex on a symbolic regexp")
+			}
+			// concrete pattern: try the fixed-width fragment, else require a concrete subject
+			if elems, unesc, ok := parseFixed(r.pattern); ok && len(unesc) == 0 {
+				fx = &reFixed{elems: elems}
+			} else {
+				bs := make([]byte, len(subj))
+				for i, t := range subj {
+					if !t.isConst() {
+						unsupported("FindAllIndex: pattern %q outside the fixed-width fragment with a symbolic subject", r.pattern.s)
+					}
+					bs[i] = byte(t.k)
+				}
+				var res [][2]int
+				for _, p := range r.re.FindAllIndex(bs, -1) {
+					res = append(res, [2]int{p[0], p[1]})
+				}
+				return ret1(st, w.pairsValue(st, res))
+			}
+		}
+		var outs []Outcome
+		for _, o := range w.findAllFixed(st, fx, subj, 0, nil) {
+			outs = append(outs, Outcome{st: o.st, ret: w.pairsValue(o.st, o.res)})
+		}
+		return outs
+	}
+
+	// index/suffixarray: New(data) / Lookup(sep, -1) = all occurrence offsets (here: descending order,
+	// the contract leaves the order open and gts.Search sorts them)
+	natives["index/suffixarray.New"] = func(w *Worker, st *State, args []Value, fv *FuncV, depth int) []Outcome {
+		data := append([]Value{}, w.sliceElems(st, args[0].(SliceV))...)
+		id := st.alloc(&ArrV{data})
+		return ret1(st, PtrV{obj: id})
+	}
+	natives["(*index/suffixarray.Index).Lookup"] = func(w *Worker, st *State, args []Value, fv *FuncV, depth int) []Outcome {
+		p := args[0].(PtrV)
+		data := st.get(p.obj).(*ArrV).e
+		sep := w.sliceElems(st, args[1].(SliceV))
+		n := concInt(args[2], "suffixarray Lookup n")
+		if n >= 0 {
+			unsupported("suffixarray.Lookup with n >= 0")
+		}
+		type part struct {
+			st  *State
+			occ []int
+		}
+		parts := []part{{st, nil}}
+		if len(sep) == 0 {
+			return ret1(st, SliceV{})
+		}
+		for i := 0; i+len(sep) <= len(data); i++ {
+			cs := make([]*Term, len(sep))
+			for j := range sep {
+				cs[j] = mkEq(data[i+j].(*Term), sep[j].(*Term))
+			}
+			c := mkAnd(cs...)
+			var next []part
+			for _, pt := range parts {
+				if c.isTrue() {
+					next = append(next, part{pt.st, append(pt.occ[:len(pt.occ):len(pt.occ)], i)})
+					continue
+				}
+				if c.isFalse() {
+					next = append(next, pt)
+					continue
+				}
+				ft, mt, ff, mf := w.feasible(pt.st, c)
+				if ft {
+					s2 := pt.st
+					if ff {
+						s2 = pt.st.fork()
+						w.states++
+					}
+					s2.assume(c)
+					s2.model = mt
+					next = append(next, part{s2, append(pt.occ[:len(pt.occ):len(pt.occ)], i)})
+				}
+				if ff {
+					pt.st.assume(mkNot(c))
+					pt.st.model = mf
+					next = append(next, part{pt.st, pt.occ})
+				}
+			}
+			parts = next
+		}
+		var outs []Outcome
+		for _, pt := range parts {
+			if len(pt.occ) == 0 {
+				outs = append(outs, Outcome{st: pt.st, ret: SliceV{}})
+				continue
+			}
+			e := make([]Value, len(pt.occ))
+			for k, o := range pt.occ {
+				e[len(pt.occ)-1-k] = mkInt(int64(o)) // descending: the order is unspecified
+			}
+			id := pt.st.alloc(&ArrV{e})
+			outs = append(outs, Outcome{st: pt.st, ret: SliceV{obj: id, len: len(e), cap: len(e)}})
+		}
+		return outs
+	}
+}
+
+// pairsValue builds a [][]int value.
+func (w *Worker) pairsValue(st *State, res [][2]int) Value {
+	if len(res) == 0 {
+		return SliceV{}
+	}
+	outer := make([]Value, len(res))
+	for i, p := range res {
+		id := st.alloc(&ArrV{[]Value{mkInt(int64(p[0])), mkInt(int64(p[1]))}})
+		outer[i] = SliceV{obj: id, len: 2, cap: 2}
+	}
+	id := st.alloc(&ArrV{outer})
+	return SliceV{obj: id, len: len(outer), cap: len(outer)}
 }
